@@ -392,8 +392,8 @@ impl VmGreenThread {
 
     /// Set of objects (addresses) the program running on this green thread can still reach:
     /// operand stack (which holds locals too), the operands of a string operation that is in
-    /// flight, and everything transitively reachable through fields, elements, variant payloads
-    /// and channel queues. Independent of the collector's colouring and gray stack.
+    /// flight, and everything transitively reachable through fields, elements and variant
+    /// payloads. Independent of the collector's colouring and gray stack.
     /// `None` unless the reachability check and the quarantine are both on.
     pub(super) fn verif_reachable(&self) -> Option<HashSet<usize>> {
         if !(REACH_CHECK.with(|r| r.get()) && quarantine_on()) {
@@ -430,12 +430,8 @@ impl VmGreenThread {
                     let eo = unsafe { &*(addr as *const EnumObject) };
                     work.push(eo.val);
                 }
-                ValueTag::Channel => {
-                    let co = unsafe { &*(addr as *const ChannelObject) };
-                    if let Ok(q) = co.data.lock() {
-                        work.extend(q.iter().copied());
-                    }
-                }
+                // channel queues are not followed: what is in flight is the business of the
+                // quarantine monitor (a queue may be shared with other green threads)
                 _ => {}
             }
         }
